@@ -11,13 +11,15 @@ expectation "same code file" which is a consequence of (a), not a computed value
     (ReportOptionsDoNotInterfere).  This only shows that the *model* has no such dependency.
 (G) Options_Gen: 25 factors = the report options named by the property (-L/-l/-OLIST, -u, -C, -s, -I, -g MAP|NOICE|
     ATMEL, -t, -x, -n, -q, -A, -r, -E, -gnuerrors, -LISTRADIX, -P, -M, -h, -SPLITBYTE) + option source (argv | ASCMD |
-    @keyfile | ASCMD=@keyfile) + working directory + output path (-o) + LANG/LC_ALL in {C, de_DE, en_US}.  TLC builds a
+    @keyfile | ASCMD=@keyfile) + working directory (source directory | its parent | an unrelated one, the latter two
+    also WITH DECOYS: a file of the same name, other content, for every INCLUDE / BINCLUDE name the source finds through
+    the -i path only) + output path (-o) + LANG/LC_ALL in {C, de_DE, en_US}.  TLC builds a
     pairwise covering array greedily from seeded random candidates and re-checks PairwiseCovered from scratch
-    (about 32 vectors), and derives three more designs from it, each certified by an invariant: Singles (the plain
-    configuration with exactly one factor changed: every option value alone, 41 vectors), AllOn (everything switched
+    (about 37 vectors), and derives three more designs from it, each certified by an invariant: Singles (the plain
+    configuration with exactly one factor changed: every option value alone, 46 vectors), AllOn (everything switched
     on at once) and Rotation(r) (a 1-wise cover of all option values - 6-7 vectors of the pairwise sample - starting
     at its r-th vector).
-    quick: ALL 201 golden sources + 16 generated programs; source number n runs under Rotation(n mod 32) and AllOn, so
+    quick: ALL 201 golden sources + 16 generated programs; source number n runs under Rotation(n mod 37) and AllOn, so
     every (source, option value) pair is exercised and the corpus as a whole uses the entire pairwise sample (for the
     one megabyte source, t_m16, the listing-producing factors are switched off in the quick tier).
     thorough: every source under all vectors of the pairwise sample and AllOn.
@@ -53,6 +55,31 @@ code file deleted; caught on g_report under the single option -M); -h changing t
 t_dc/t_68kfloat.. and g_packed under the single option -h); -s also setting DefRelaxedMode; debug bookkeeping (-g) advancing the PC of
 instructions longer than 2; -u shortening 3-byte instructions; ASCMD=@keyfile implying -relaxed; LC_ALL=de* implying
 -relaxed.  (A mutant naming the -E log like the code file loses diagnostics but not code: not C17's business.)
+
+Extension "include search x working directory" (checks/ext_incsearch.py, spec/IncSearch*.tla; runs beside the phases
+above, judged before the command-line layer).  Added because a change of bpemu.c FSearch that probed the name as given -
+i.e. the working directory - before the -i include path went unnoticed: the working directory was a factor, but no
+working directory ever HELD anything, so "the working directory never alters the code file" was only tried with empty
+directories.  The missing dimension is the content of the working directory relative to the search: now (a) the cwd
+factor of Options_Gen has decoy values (35 golden + 2 generated sources find includes through -i only; each meets both
+decoy directories in its rotation), and (b) IncSearch.tla models the search itself - FSearch / AssembleAndCheck /
+FExpand over path strings resolved against the working directory, next to the manual's rule (directory of the including
+file, then the -i list) which never mentions the working directory - over files of the looked-up name in any subset of
+six directories (source directory, its parent, a directory below, two -i directories, an unrelated one; quick <= 2 of
+them, thorough all 64 subsets) x name written plain / without suffix / with sub-directory / with `..` / absolute x
+statement in the main source / in an include file found through -i x include path empty / one / two directories in
+either order x IFEXIST+IFNEXIST and BINCLUDE+INCLUDE programs; TLC checks RepairedIsManual, CwdNeverMatters,
+DeviationsAreNamed, DecoyOnlyByDevs and prints every group with the outcome expected per working directory (source
+directory, parent, below, unrelated) and spelling (relative / absolute); 6 160 (quick) / 107 520 (thorough) runs of the
+real asl.  Verdict: the variants of a group leave byte-identical code files.  Findings on the unchanged tree (KNOWN-
+FINDING, known_findings/C17.json): IFEXIST / IFNEXIST search "." before the include path (proposed_fixes/C17-ifexist-
+working-directory), an empty include path makes FSearch probe the working directory (proposed_fixes/C17-empty-include-
+path); named without verdict: names with a path are still searched along -i (PathNameSearched).  Seen on the way, not
+C17: without -o, `asl ../dir/x.asm` writes its code file as `.p` into the working directory.
+Mutations caught by the quick tier (exit 1): the seeded FSearch change (passes the 201 golden tests; 387 violations, of
+them 18 golden / generated sources under a decoy working directory); FSearch falling back to the name as given AFTER the
+include path; FSearch ignoring the directory of the including file (pPos = NULL); BINCLUDE preferring a file of the
+working directory (the last three not run against the golden tests).
 
 Extension "command line layer" (checks/ext_cmdline.py, spec/CmdLine*.tla; last phase of main()): the clause "the place an
 option is given (command line, ASCMD variable, @key file) never alters the code file" one level down, for ANY option and
@@ -508,19 +535,25 @@ def main(tier):
     ext_incsearch.finish(rep, incsearch)   # extension: the working directory and what lies in it (checks/ext_incsearch.py)
     ext_cmdline.run(rep, bld, tier)        # extension: the command-line / option layer (checks/ext_cmdline.py)
     return rep.finish(
-        rule="configurations = TLC-built designs over 25 factors (report options, option source, cwd, -o, LANG/LC_ALL): "
+        rule="configurations = TLC-built designs over 25 factors (report options, option source, cwd with / without decoy "
+             "include files, -o, LANG/LC_ALL): "
              "quick = all 201 golden + 16 generated sources, each under a rotating 1-wise cover of the pairwise sample + "
              "AllOn (every (source, option value) pair); thorough = each under the whole pairwise sample + AllOn; generated "
              "sources also under every single option; plus a repeated plain run and 2 repeated vector runs per source; "
-             "distinct = distinct (source, argv, env); every evaluation compares a code file with the plain run's",
+             "distinct = distinct (source, argv, env); every evaluation compares a code file with the plain run's; include "
+             "search: every TLC-printed group (files in <= 2 / all subsets of 6 directories x name form x nesting x include "
+             "path) run from 4 working directories x 2 / 4 spellings, code files compared within the group",
         exhaustive=False)
 
 
 def replay(path):
     v = json.load(open(os.path.join(path, "violation.json")))
     log("recorded: %s" % v["what"][:1500])
-    log("argv: %s" % open(os.path.join(path, "argv")).read())
-    log("env: %s" % open(os.path.join(path, "env")).read())
+    for n in ("argv", "env", "cwd", "first.cwd", "first.argv", "second.cwd", "second.argv"):     # the latter: include search
+        if os.path.exists(os.path.join(path, n)):
+            log("%s: %s" % (n, open(os.path.join(path, n)).read()))
+    if os.path.exists(os.path.join(path, "tree.json")):
+        log("file tree of the group ({ROOT} = any empty directory): %s" % os.path.join(path, "tree.json"))
     log("re-run: ./check C17 --tier %s   (VERIF_SEED=%s reproduces the same vectors)" % (v.get("tier"), v.get("seed")))
     return 0
 
